@@ -150,6 +150,9 @@ func c12Life(c *mon.Ctx, r *mon.Rand, force string) {
 		traffic = "shared-identities"
 	}
 	nIdents := r.Range(1, 40)
+	if force == "reporter-size" && r.Bool() {
+		nIdents = r.Range(100, 250) // many size measurements, made by eight goroutines at once when allocation is concurrent
+	}
 	idents := make([]m3Ident, nIdents)
 	for i := range idents {
 		id := m3Ident{Name: "m" + strconv.Itoa(i)}
@@ -282,6 +285,14 @@ func c12Life(c *mon.Ctx, r *mon.Rand, force string) {
 		desc["destination"] = "dead-port"
 		c.Class("lifetimes-with-write-errors(dead port)", 1)
 	}
+	// every seventh lifetime with a live destination has a second one that
+	// refuses every datagram: what the live one receives is the same (a write
+	// error for one destination neither drops nor repeats a batch for the other)
+	if !deadPort && r.Chance(1, 7) {
+		opts.HostPorts = []string{mon.DeadPort()}
+		desc["second_destination"] = "dead-port"
+		c.Class("lifetimes-with-one-live-and-one-refusing-destination", 1)
+	}
 	m3ViaConfiguration = r.Chance(1, 6) // build the reporter through m3.Configuration where the options allow it
 	defer func() { m3ViaConfiguration = false }()
 	env, err := newM3Env(nSinks, opts, nil)
@@ -296,15 +307,22 @@ func c12Life(c *mon.Ctx, r *mon.Rand, force string) {
 		if concAlloc {
 			// allocation (and with it the size measurement) from several goroutines
 			var wg sync.WaitGroup
-			for g := 0; g < 4; g++ {
+			G := 4
+			if force == "reporter-size" {
+				G = 8
+			}
+			startAlloc := make(chan struct{})
+			for g := 0; g < G; g++ {
 				wg.Add(1)
 				go func(g int) {
 					defer wg.Done()
-					for i := g; i < len(idents); i += 4 {
+					<-startAlloc
+					for i := g; i < len(idents); i += G {
 						hs[i] = allocM3(env.Rep, &idents[i])
 					}
 				}(g)
 			}
+			close(startAlloc)
 			wg.Wait()
 		} else {
 			for i := range idents {
@@ -318,7 +336,9 @@ func c12Life(c *mon.Ctx, r *mon.Rand, force string) {
 			}
 			calls = append(calls, hs[r.Intn(len(hs))].report(r, 0, i))
 		}
-		if manyTagSets {
+		if manyTagSets || (force == "reporter-size" && concAlloc) {
+			// every handle at least once: the size each one was charged at
+			// allocation is compared with what it occupies
 			for k := range hs {
 				calls = append(calls, hs[k].report(r, 0, nCalls+k))
 			}
